@@ -57,8 +57,10 @@ READY = {
          "exactly the allowed-severity subset, decoration keeps every error and invents nothing, sub-tag span preconditions discharged at call sites "
          "(C01/C03 contracts). Sorting, JSON export, end-to-end fragments: bounded workload." + BND,
          "Issue model with ghost span fields; _get_tag_span_to_error_object and _add_context_to_errors trusted"),
- "C13": ("other", "Prefix extraction (_get_schema_namespace) proved from the property text. Dispatch, partnered-library content and refusal cases: bounded "
-         "workload over all offline pairings." + BND, "only one function of this property is under contract"),
+ "C13": ("proof", "Prefix extraction (_get_schema_namespace), prefix syntax (set_schema_prefix: alphabetic, ':' appended, HedFileError otherwise) and the "
+         "dispatch of HedSchemaGroup.find_tag_entry (resolved by the schema owning the prefix and no other; unloaded prefix is an error) proved. "
+         "Prefixed-vs-alone verdict equality, partnered-library content and refusal cases: bounded workload over all offline pairings." + BND,
+         "tag_view abstract view shared with C03; isalpha exact on ASCII, uninterpreted elsewhere; loaders not verified"),
  "C14": ("proof", "Attribute validators conversion_factor, unit_exists, tag_is_placeholder_check proved as iff/implication clauses with the published code. "
          "Acceptance of all bundled schemas and seeded faults at sampled positions: bounded workload." + BND,
          "float parsing uninterpreted; derivative_unit lookup trusted; hedId validator (dynamic typing) bounded only"),
